@@ -13,6 +13,7 @@ import ConjureVerif.Model.EnumUnion
 import ConjureVerif.Model.DoubleOps
 import ConjureVerif.Model.Endpoint
 import ConjureVerif.Model.Call
+import ConjureVerif.Model.Idents
 import ConjureVerif.Model.GenOrder
 /-
 Line-protocol driver.  One operation per input line: `<property> <op> <args…>`; one output line per
@@ -30,6 +31,7 @@ def dispatch (line : String) : String :=
   | "C13" :: rest => AnyIO.handle rest
   | "C10" :: rest => EnumUnion.handle rest
   | "C14" :: rest => DoubleOps.handle rest
+  | "C03" :: rest => Idents.handle rest
   | "C04" :: rest => Call.handle rest
   | "C20" :: rest => GenOrder.handle rest
   | "C19" :: rest => Endpoint.handle rest
